@@ -160,3 +160,18 @@ func vxBelievesLeader(c *vcCluster, i int) (bool, uint64) {
 	}
 	return s.raft.State() == raft.Leader, s.raft.CurrentTerm()
 }
+
+// vxClose shuts a cluster down without healing it first: the nodes are stopped
+// one after the other while any partition is still in place, then the kit's
+// Close removes the files. (vcCluster.Close heals first and stops all nodes at
+// once; if the heal lets a cut-off candidate win an election at that moment, a
+// heartbeat of the new term can reach a node between raft's shutdown and the
+// closing of its stable store, and hashicorp/raft's heartbeat fast path - which
+// checks for shutdown only on entry - panics the process with "failed to save
+// current term: database not open". Seen once under heavy load.)
+func vxClose(c *vcCluster) {
+	for i := range c.nodes {
+		c.Crash(i)
+	}
+	c.Close()
+}
